@@ -154,12 +154,21 @@ func (c *collector) message(m *acmelib.Message) *SX {
 		I(int64(m.DelayTime())), I(int64(m.StartDelayTime())), recs, sigs, c.assigns(m.AttributeAssignments()))
 }
 
-func dumpNet(n *acmelib.Network) (*SX, *collector) {
+// dumpNet projects a network built through the API: every bus refers to its CAN-ID builder (the
+// one it was created with included: it can be edited in place and is saved like any other).
+func dumpNet(n *acmelib.Network) (*SX, *collector) { return dumpNetOpt(n, false) }
+
+// dumpLoadedNet projects a network returned by LoadNetwork: a bus whose save named no builder
+// (files written before the builder was always saved) has a fresh default builder that is not part
+// of the file; it is projected as "no builder".
+func dumpLoadedNet(n *acmelib.Network) (*SX, *collector) { return dumpNetOpt(n, true) }
+
+func dumpNetOpt(n *acmelib.Network, loaded bool) (*SX, *collector) {
 	c := &collector{seen: map[acmelib.EntityID]bool{}}
 	buses := T("buses")
 	for _, b := range n.Buses() {
 		builder := ""
-		if !acmelib.VerifBusHasDefaultCANIDBuilder(b) {
+		if !(loaded && acmelib.VerifBusHasDefaultCANIDBuilder(b)) {
 			if cb := b.CANIDBuilder(); cb != nil {
 				builder = cb.EntityID().String()
 				if c.once("builder:" + cb.EntityID()) {
